@@ -309,11 +309,7 @@ func validFiles(r *rng, n int, maxCorpus int) [][]byte {
 		k := fullKnobs()
 		k.badDefs = 0
 		k.records = 1 + r.intn(30)
-		fo := defaultFrame()
-		if r.chance(30) {
-			fo.hdrSize = 12
-		}
-		res = append(res, frame(randomStream(r, k), fo))
+		res = append(res, frame(randomStream(r, k), randFrame(r)))
 	}
 	return res
 }
@@ -403,6 +399,20 @@ func genCutsFaults(r *rng, nfiles int, maxLen int, stride int) CaseSet {
 	// files whose trailing CRC (and, for some, header CRC) has a zero byte or is zero altogether: a
 	// check that tolerates a partly missing CRC can only go wrong on such values
 	pool = append(pool, specialCrcFiles(r)...)
+	// records that end in bytes the decoder only skips (an unlisted field, developer data): a cut
+	// inside them must still be an error, for the file_id record too
+	for _, hs := range []int{12, 14} {
+		var b recs
+		b.def(defn{local: 0, global: 0, fields: []fdef{{0, 1, 0x00}, {1, 2, 0x84}, {250, 4, 0x86}}})
+		b.data(0, []byte{4, 1, 0, 9, 8, 7, 6})
+		b.def(defn{local: 1, global: 20, devBit: true, fields: []fdef{{253, 4, 0x86}, {3, 1, 0x02}, {200, 2, 0x84}},
+			dev: []ddesc{{0, 3, 0}}})
+		b.data(1, []byte{1, 2, 3, 4, 140, 5, 6, 7, 8, 9})
+		b.data(1, []byte{2, 2, 3, 4, 141, 5, 6, 7, 8, 9})
+		fo := defaultFrame()
+		fo.hdrSize = hs
+		pool = append(pool, frame(b.Bytes(), fo))
+	}
 	k := r.intn(stride)
 	for _, f := range pool {
 		for cut := 0; cut <= len(f); cut++ {
